@@ -644,6 +644,27 @@ def method_self(run):
         a1 = Nm.ArgumentName([1], 'x', (1, 0), (1, 0), fs)
         prove('first-parameter-of-a-method-is-an-instance', fs.get_argument(None, a0) is inst, path=path)
         prove('other-parameters-unknown', fs.get_argument(None, a1) is None, path=path)
+        # whatever decorates the method: a property getter / setter, a wrapping decorator, a cache - its first parameter is the instance
+        import ast as _ast
+
+        class Ctx(object):
+            def evaluate(self, node):
+                name = node.id if isinstance(node, _ast.Name) else node.attr if isinstance(node, _ast.Attribute) else 'call'
+                if name in ('property', 'staticmethod', 'classmethod'):
+                    return Nm.RuntimeName(name, getattr(__builtins__, name, None) if not isinstance(__builtins__, dict) else __builtins__[name])
+                return None
+        for label, dec in (('property', 'property'), ('setter', 'table.setter'), ('source-decorator', 'passthrough'), ('lru_cache', 'functools.lru_cache(None)'),
+                           ('two-decorators', None)):
+            fs3 = loader.bare_instance(S.FuncScope)
+            fs3.parent = CS()
+            fs3.decorator_list = ([_ast.parse(dec, mode='eval').body] if dec else
+                                  [_ast.parse('functools.wraps(f)', mode='eval').body, _ast.parse('property', mode='eval').body])
+            try:
+                r3 = fs3.get_argument(Ctx(), Nm.ArgumentName([0], 'self', (1, 0), (1, 0), fs3))
+            except Exception as e:
+                r3 = e
+            prove('first-parameter-of-a-decorated-method-is-an-instance[%s]' % label, r3 is inst,
+                  clause='Python binds the first parameter of a %s method to the instance as for a plain method [%r]' % (label, r3), path=path)
         fs2 = loader.bare_instance(S.FuncScope)
         fs2.parent = loader.bare_instance(S.SourceScope)
         try:
